@@ -212,6 +212,36 @@ theorem consumeU64_lt {b r : Bytes} {v : Nat} (h : consumeU64 b = some (v, r)) :
     simp [hd] at h
     omega
 
+/-- a successful bounded read returns a suffix of its input -/
+theorem decodeN_suffix {k : Nat} {b r : Bytes} {v : Nat} (h : decodeN k b = some (v, r)) :
+    ∃ pre, b = pre ++ r := by
+  induction k generalizing b v r with
+  | zero => simp [decodeN] at h
+  | succ k ih =>
+    cases b with
+    | nil => simp [decodeN] at h
+    | cons x xs =>
+      unfold decodeN at h
+      split at h
+      · simp at h; exact ⟨[x], by simp [h.2]⟩
+      · cases hd : decodeN k xs with
+        | none => simp [hd] at h
+        | some p =>
+          obtain ⟨v', r'⟩ := p
+          simp [hd] at h
+          obtain ⟨pre, hp⟩ := ih hd
+          exact ⟨x :: pre, by rw [hp, ← h.2]; simp⟩
+
+theorem consumeU64_suffix {b r : Bytes} {v : Nat} (h : consumeU64 b = some (v, r)) : ∃ pre, b = pre ++ r := by
+  unfold consumeU64 at h
+  cases hd : decodeN 10 b with
+  | none => simp [hd] at h
+  | some p =>
+    obtain ⟨v', r'⟩ := p
+    simp [hd] at h
+    obtain ⟨pre, hp⟩ := decodeN_suffix hd
+    exact ⟨pre, by rw [hp, h.2.2]⟩
+
 /-! ### the closed-form length and the Go formula -/
 
 theorem size_eq_log (n : Nat) : size n = n.log2 / 7 + 1 := by
